@@ -1,0 +1,479 @@
+//! Verification hooks (only compiled with `--cfg multiqueue2_verif`).
+//!
+//! Look-alikes for the synchronisation primitives the crate uses. Every
+//! operation first reports to a harness-registered, thread-local [`Runtime`]
+//! and then performs the real operation, so a harness can serialise threads
+//! and choose every interleaving of the real code. A thread that has no
+//! runtime registered falls straight through to the real primitive.
+
+use std::cell::Cell;
+use std::ops::{Deref, DerefMut};
+use std::sync::atomic::Ordering;
+use std::time::Duration;
+
+extern crate parking_lot;
+
+#[derive(Clone, Copy, Debug, PartialEq, Eq)]
+pub enum Op {
+    Load,
+    Store,
+    Rmw,
+    Cas,
+    CasWeak,
+    PtrLoad,
+    PtrCas,
+}
+
+/// What the harness implements. All methods are called on the thread that
+/// performs the operation.
+pub trait Runtime: Sync {
+    /// Called immediately before a shared-memory operation (scheduling point).
+    fn point(&self, op: Op, addr: usize);
+    /// Called immediately after it: the value observed/stored and whether the
+    /// stored value differs from the previous one.
+    fn done(&self, op: Op, addr: usize, value: usize, changed: bool);
+    /// May a `compare_exchange_weak` that would succeed fail spuriously here?
+    fn spurious_cas_failure(&self, addr: usize) -> bool;
+    /// Blocks (in the harness' model) until the mutex is free, then owns it.
+    fn mutex_lock(&self, addr: usize);
+    /// Scheduling point; true if the model grants the mutex.
+    fn mutex_try_lock(&self, addr: usize) -> bool;
+    fn mutex_unlock(&self, addr: usize);
+    /// Releases `mutex`, blocks until notified, re-acquires `mutex`.
+    fn cond_wait(&self, cv: usize, mutex: usize);
+    fn cond_notify_all(&self, cv: usize);
+    fn yield_now(&self);
+    fn sleep(&self, dur: Duration);
+    /// Head of an unbounded wait loop.
+    fn spin_loop(&self);
+    fn on_alloc(&self, ptr: usize, bytes: usize);
+    /// true = the runtime took ownership of the block (quarantine).
+    fn on_dealloc(&self, ptr: usize, bytes: usize, align: usize) -> bool;
+    /// About to dereference a raw pointer to reclaimable bookkeeping memory.
+    fn touch(&self, ptr: usize, bytes: usize);
+}
+
+thread_local! {
+    static RT: Cell<Option<&'static dyn Runtime>> = const { Cell::new(None) };
+}
+
+pub fn set_thread_runtime(rt: Option<&'static dyn Runtime>) {
+    RT.with(|c| c.set(rt));
+}
+
+#[inline(always)]
+pub fn rt() -> Option<&'static dyn Runtime> {
+    RT.try_with(|c| c.get()).unwrap_or(None)
+}
+
+/// A scheduling point the harness payload may call (e.g. in the middle of
+/// `Clone::clone`).
+pub fn user_point(addr: usize) {
+    if let Some(r) = rt() {
+        r.point(Op::Load, addr);
+        r.done(Op::Load, addr, 0, false);
+    }
+}
+
+// ---------------------------------------------------------------- atomics
+
+#[repr(transparent)]
+pub struct AtomicUsize(std::sync::atomic::AtomicUsize);
+
+impl AtomicUsize {
+    pub const fn new(v: usize) -> AtomicUsize {
+        AtomicUsize(std::sync::atomic::AtomicUsize::new(v))
+    }
+
+    #[inline(always)]
+    fn addr(&self) -> usize {
+        self as *const _ as usize
+    }
+
+    #[inline]
+    pub fn load(&self, ord: Ordering) -> usize {
+        match rt() {
+            None => self.0.load(ord),
+            Some(r) => {
+                r.point(Op::Load, self.addr());
+                let v = self.0.load(ord);
+                r.done(Op::Load, self.addr(), v, false);
+                v
+            }
+        }
+    }
+
+    #[inline]
+    pub fn store(&self, val: usize, ord: Ordering) {
+        match rt() {
+            None => self.0.store(val, ord),
+            Some(r) => {
+                r.point(Op::Store, self.addr());
+                let old = self.0.load(Ordering::Relaxed);
+                self.0.store(val, ord);
+                r.done(Op::Store, self.addr(), val, old != val);
+            }
+        }
+    }
+
+    #[inline]
+    fn rmw<F: FnOnce(&std::sync::atomic::AtomicUsize) -> usize>(
+        &self,
+        f: F,
+    ) -> usize {
+        match rt() {
+            None => f(&self.0),
+            Some(r) => {
+                r.point(Op::Rmw, self.addr());
+                let old = f(&self.0);
+                let new = self.0.load(Ordering::Relaxed);
+                r.done(Op::Rmw, self.addr(), old, old != new);
+                old
+            }
+        }
+    }
+
+    #[inline]
+    pub fn fetch_add(&self, val: usize, ord: Ordering) -> usize {
+        self.rmw(|a| a.fetch_add(val, ord))
+    }
+
+    #[inline]
+    pub fn fetch_sub(&self, val: usize, ord: Ordering) -> usize {
+        self.rmw(|a| a.fetch_sub(val, ord))
+    }
+
+    #[inline]
+    pub fn fetch_or(&self, val: usize, ord: Ordering) -> usize {
+        self.rmw(|a| a.fetch_or(val, ord))
+    }
+
+    #[inline]
+    pub fn fetch_and(&self, val: usize, ord: Ordering) -> usize {
+        self.rmw(|a| a.fetch_and(val, ord))
+    }
+
+    #[inline]
+    pub fn compare_exchange(
+        &self,
+        current: usize,
+        new: usize,
+        success: Ordering,
+        failure: Ordering,
+    ) -> Result<usize, usize> {
+        match rt() {
+            None => self.0.compare_exchange(current, new, success, failure),
+            Some(r) => {
+                r.point(Op::Cas, self.addr());
+                let res = self.0.compare_exchange(current, new, success, failure);
+                match res {
+                    Ok(v) => r.done(Op::Cas, self.addr(), v, current != new),
+                    Err(v) => r.done(Op::Cas, self.addr(), v, false),
+                }
+                res
+            }
+        }
+    }
+
+    #[inline]
+    pub fn compare_exchange_weak(
+        &self,
+        current: usize,
+        new: usize,
+        success: Ordering,
+        failure: Ordering,
+    ) -> Result<usize, usize> {
+        match rt() {
+            None => self.0.compare_exchange_weak(current, new, success, failure),
+            Some(r) => {
+                r.point(Op::CasWeak, self.addr());
+                // never fails spuriously unless the harness injects it
+                if r.spurious_cas_failure(self.addr()) {
+                    let v = self.0.load(failure);
+                    r.done(Op::CasWeak, self.addr(), v, false);
+                    return Err(v);
+                }
+                let res = self.0.compare_exchange(current, new, success, failure);
+                match res {
+                    Ok(v) => r.done(Op::CasWeak, self.addr(), v, current != new),
+                    Err(v) => r.done(Op::CasWeak, self.addr(), v, false),
+                }
+                res
+            }
+        }
+    }
+}
+
+#[repr(transparent)]
+pub struct AtomicPtr<T>(std::sync::atomic::AtomicPtr<T>);
+
+impl<T> AtomicPtr<T> {
+    pub const fn new(p: *mut T) -> AtomicPtr<T> {
+        AtomicPtr(std::sync::atomic::AtomicPtr::new(p))
+    }
+
+    #[inline(always)]
+    fn addr(&self) -> usize {
+        self as *const _ as usize
+    }
+
+    #[inline]
+    pub fn load(&self, ord: Ordering) -> *mut T {
+        match rt() {
+            None => self.0.load(ord),
+            Some(r) => {
+                r.point(Op::PtrLoad, self.addr());
+                let v = self.0.load(ord);
+                r.done(Op::PtrLoad, self.addr(), v as usize, false);
+                v
+            }
+        }
+    }
+
+    #[inline]
+    pub fn compare_exchange(
+        &self,
+        current: *mut T,
+        new: *mut T,
+        success: Ordering,
+        failure: Ordering,
+    ) -> Result<*mut T, *mut T> {
+        match rt() {
+            None => self.0.compare_exchange(current, new, success, failure),
+            Some(r) => {
+                r.point(Op::PtrCas, self.addr());
+                let res = self.0.compare_exchange(current, new, success, failure);
+                match res {
+                    Ok(v) => r.done(Op::PtrCas, self.addr(), v as usize, current != new),
+                    Err(v) => r.done(Op::PtrCas, self.addr(), v as usize, false),
+                }
+                res
+            }
+        }
+    }
+}
+
+/// Executes the real fence. Not a scheduling point: under sequentially
+/// consistent serialisation a fence has no observable effect.
+#[inline(always)]
+pub fn fence(ord: Ordering) {
+    std::sync::atomic::fence(ord)
+}
+
+// ------------------------------------------------------- mutex / condvar
+
+/// The one lock implementation behind both look-alikes below. The real
+/// parking_lot mutex underneath is always taken too, so unregistered threads
+/// and the harness' pass-through mode keep working.
+pub struct RawShimMutex<T> {
+    inner: parking_lot::Mutex<T>,
+}
+
+pub struct ShimGuard<'a, T> {
+    guard: Option<parking_lot::MutexGuard<'a, T>>,
+    addr: usize,
+}
+
+impl<T> RawShimMutex<T> {
+    pub const fn new(v: T) -> RawShimMutex<T> {
+        RawShimMutex {
+            inner: parking_lot::const_mutex(v),
+        }
+    }
+
+    #[inline(always)]
+    fn addr(&self) -> usize {
+        self as *const _ as usize
+    }
+
+    pub fn lock(&self) -> ShimGuard<'_, T> {
+        if let Some(r) = rt() {
+            r.mutex_lock(self.addr());
+        }
+        ShimGuard {
+            guard: Some(self.inner.lock()),
+            addr: self.addr(),
+        }
+    }
+
+    pub fn try_lock(&self) -> Option<ShimGuard<'_, T>> {
+        match rt() {
+            None => self.inner.try_lock().map(|g| ShimGuard {
+                guard: Some(g),
+                addr: self.addr(),
+            }),
+            Some(r) => {
+                if r.mutex_try_lock(self.addr()) {
+                    Some(ShimGuard {
+                        guard: Some(self.inner.lock()),
+                        addr: self.addr(),
+                    })
+                } else {
+                    None
+                }
+            }
+        }
+    }
+}
+
+impl<'a, T> Drop for ShimGuard<'a, T> {
+    fn drop(&mut self) {
+        // release the real lock first, then tell the model
+        self.guard.take();
+        if let Some(r) = rt() {
+            r.mutex_unlock(self.addr);
+        }
+    }
+}
+
+impl<'a, T> Deref for ShimGuard<'a, T> {
+    type Target = T;
+    fn deref(&self) -> &T {
+        self.guard.as_ref().unwrap()
+    }
+}
+
+impl<'a, T> DerefMut for ShimGuard<'a, T> {
+    fn deref_mut(&mut self) -> &mut T {
+        self.guard.as_mut().unwrap()
+    }
+}
+
+/// Look-alike of the `parking_lot` names the crate uses.
+pub mod pl {
+    use super::*;
+
+    pub struct Mutex<T>(RawShimMutex<T>);
+    pub type MutexGuard<'a, T> = ShimGuard<'a, T>;
+
+    impl<T> Mutex<T> {
+        pub const fn new(v: T) -> Mutex<T> {
+            Mutex(RawShimMutex::new(v))
+        }
+        #[inline]
+        pub fn lock(&self) -> ShimGuard<'_, T> {
+            self.0.lock()
+        }
+    }
+
+    impl<T: Default> Default for Mutex<T> {
+        fn default() -> Mutex<T> {
+            Mutex::new(T::default())
+        }
+    }
+
+    #[derive(Default)]
+    pub struct Condvar {
+        inner: parking_lot::Condvar,
+    }
+
+    impl Condvar {
+        pub const fn new() -> Condvar {
+            Condvar {
+                inner: parking_lot::Condvar::new(),
+            }
+        }
+
+        #[inline(always)]
+        fn addr(&self) -> usize {
+            self as *const _ as usize
+        }
+
+        pub fn wait<T>(&self, guard: &mut ShimGuard<'_, T>) {
+            match rt() {
+                None => self.inner.wait(guard.guard.as_mut().unwrap()),
+                Some(r) => {
+                    let (cv, m) = (self.addr(), guard.addr);
+                    // the real lock is released for the duration of the wait
+                    // (and re-taken even if the harness unwinds out of it)
+                    parking_lot::MutexGuard::unlocked(guard.guard.as_mut().unwrap(), || {
+                        r.cond_wait(cv, m)
+                    });
+                }
+            }
+        }
+
+        pub fn notify_all(&self) -> usize {
+            match rt() {
+                None => self.inner.notify_all(),
+                Some(r) => {
+                    r.cond_notify_all(self.addr());
+                    0
+                }
+            }
+        }
+    }
+}
+
+/// Look-alike of the `std::sync::Mutex` surface the crate uses.
+pub mod stdsync {
+    use super::*;
+
+    pub struct Mutex<T>(RawShimMutex<T>);
+
+    #[derive(Debug)]
+    pub struct NoPoison;
+
+    impl<T> Mutex<T> {
+        pub const fn new(v: T) -> Mutex<T> {
+            Mutex(RawShimMutex::new(v))
+        }
+        #[inline]
+        pub fn lock(&self) -> Result<ShimGuard<'_, T>, NoPoison> {
+            Ok(self.0.lock())
+        }
+        #[inline]
+        pub fn try_lock(&self) -> Result<ShimGuard<'_, T>, NoPoison> {
+            self.0.try_lock().ok_or(NoPoison)
+        }
+    }
+}
+
+// ------------------------------------------------------ waiting, memory
+
+pub fn yield_now() {
+    match rt() {
+        None => std::thread::yield_now(),
+        Some(r) => r.yield_now(),
+    }
+}
+
+pub fn sleep(dur: Duration) {
+    match rt() {
+        None => std::thread::sleep(dur),
+        Some(r) => r.sleep(dur),
+    }
+}
+
+#[inline]
+pub fn spin_loop() {
+    if let Some(r) = rt() {
+        r.spin_loop();
+    }
+}
+
+#[inline]
+pub fn on_alloc<T>(ptr: *mut T, num: usize) {
+    if let Some(r) = rt() {
+        r.on_alloc(ptr as usize, num * std::mem::size_of::<T>());
+    }
+}
+
+#[inline]
+pub fn on_dealloc<T>(ptr: *mut T, num: usize) -> bool {
+    match rt() {
+        None => false,
+        Some(r) => r.on_dealloc(
+            ptr as usize,
+            num * std::mem::size_of::<T>(),
+            std::mem::align_of::<T>(),
+        ),
+    }
+}
+
+#[inline]
+pub fn touch<T>(ptr: *const T) {
+    if let Some(r) = rt() {
+        r.touch(ptr as usize, std::mem::size_of::<T>());
+    }
+}
